@@ -177,7 +177,7 @@ async def fold_correspondence(ctx, nseq: int, nops: int, salt: str):
 # ---------------------------------------------------------------------------------------------
 
 
-def gen_watch_project(r):
+def gen_watch_project(r, safe: bool = False):
     """A project whose plan globs directories and recursive patterns, reads an input nobody declares,
     uses a static tree, and has an optional and (sometimes) a failing step."""
     from simdirector import A, Project, plan_file
@@ -196,7 +196,7 @@ def gen_watch_project(r):
     plan.append(A.step("cc a", inp=["src/a.txt"], out=["out/a.o"]))
     plan.append(A.step("cc b", inp=["src/b.txt", "out/a.o"], out=["out/b.o"]))
     scripts = {}
-    if r.random() < 0.5:
+    if r.random() < 0.5 and not safe:
         feats.append("undeclared-glob-input")
         plan.append(A.step("late", inp=["g/late.in"], out=["out/late.txt"]))
     if r.random() < 0.6:
@@ -216,7 +216,7 @@ def gen_watch_project(r):
     return Project(scripts=scripts, files=files, env={}), feats
 
 
-def gen_edit(r, files, dirs, root, in_build: bool):
+def gen_edit(r, files, dirs, root, in_build: bool, safe: bool = False):
     """One edit (a short list of primitive edits) valid on the tree `files`/`dirs`."""
     srcs = sorted(p for p in files if not p.startswith("out/") and p not in ("plan.py", "sub_plan.py"))
     statics = sorted(p for p in srcs if p.split("/")[0] in ("src", "data", "g", "rec"))
@@ -235,6 +235,13 @@ def gen_edit(r, files, dirs, root, in_build: bool):
                  "add_glob", "add_tree_file", "rmtree", "rmtree_recreate", "mkdir_plain", "mkdir_matching",
                  "new_dir_with_file", "move_dir_back", "move_dir", "move_file", "tamper_out", "delete_out",
                  "create_missing", "delete_create_other"]
+    if safe:
+        # stay away from the four known classes (new / removed / vanished matched directories, a created
+        # file that is an undeclared input and a glob match) so that other differences are not masked
+        kinds = [k for k in kinds if k not in ("mkdir_matching", "new_dir_with_file", "move_dir", "move_dir_back",
+                                               "create_missing")]
+        topdirs = [d for d in topdirs if d != "mods"]
+        subdirs = [d for d in subdirs if not d.startswith("mods")]
     kind = r.choice(kinds)
     pool = statics if in_build else srcs
     if kind == "change" and pool:
@@ -292,6 +299,26 @@ def gen_edit(r, files, dirs, root, in_build: bool):
     return "none", []
 
 
+def attached_states(canon: str | None) -> str:
+    """The canonical graph restricted to attached nodes, without content digests: what remains
+    comparable when a build did not complete (the leftovers of detached nodes and the bytes of
+    half-built outputs depend on the order in which steps were dispatched)."""
+    if not canon:
+        return ""
+    keep = []
+    for block in canon.split("\n\n"):
+        lines = block.split("\n")
+        if not lines or lines[0].startswith("("):
+            continue
+        keep.append("\n".join(ln for ln in lines if "digest" not in ln and "(" not in ln.split("=", 1)[-1][:3]
+                              and not re.search(r"\s\((file|step|st):", ln)))
+    return "\n\n".join(keep)
+
+
+def complete(rc) -> bool:
+    return rc is not None and (rc.value & ~8) == 0
+
+
 def diff_results(rW, rR):
     aspects, detail = [], {}
     if rW.status != rR.status:
@@ -301,20 +328,30 @@ def diff_results(rW, rR):
         if rW.returncode != rR.returncode:
             aspects.append("returncode")
             detail["returncode"] = (repr(rW.returncode), repr(rR.returncode))
-        if rW.files != rR.files:
-            aspects.append("outputs")
-            detail["files"] = sorted(k for k in set(rW.files) | set(rR.files) if rW.files.get(k) != rR.files.get(k))[:12]
-        if rW.graph_canon != rR.graph_canon:
+        if complete(rW.returncode) and complete(rR.returncode):
+            gw, gr = rW.graph_canon, rR.graph_canon
+            if rW.files != rR.files:
+                aspects.append("outputs")
+                detail["files"] = sorted(k for k in set(rW.files) | set(rR.files)
+                                         if rW.files.get(k) != rR.files.get(k))[:12]
+        else:
+            gw, gr = attached_states(rW.graph_canon), attached_states(rR.graph_canon)
+        if gw != gr:
             aspects.append("graph")
-            a = set((rW.graph_canon or "").split("\n\n"))
-            b = set((rR.graph_canon or "").split("\n\n"))
+            a = set((gw or "").split("\n\n"))
+            b = set((gr or "").split("\n\n"))
             detail["graph_only_watch"] = sorted(a - b)[:4]
             detail["graph_only_restart"] = sorted(b - a)[:4]
     return aspects, detail
 
 
-def classify(aspects, rW, rR, newdirs, reports_w=(), reports_r=()) -> str:
+def classify(aspects, rW, rR, newdirs, reports_w=(), reports_r=(), exists=lambda p: False) -> str:
     if rW.status != "done" and rR.status == "done":
+        err = rW.error or ""
+        if "Unexpected file hash update" in err:
+            return "watch-internal-error:unexpected-hash-update"
+        if "_install_watch" in err or "iterdir" in err:
+            return "watch-internal-error:vanished-directory"
         return "watch-internal-error" if rW.status == "error" else f"watch-{rW.status}"
     if rR.status != "done":
         return f"restart-{rR.status}"
@@ -326,6 +363,8 @@ def classify(aspects, rW, rR, newdirs, reports_w=(), reports_r=()) -> str:
                 return "watch-new-directory-unreported"
     del_r = {d.split(" ")[0] for t, d in list(reports_r) + rR.tags("DELETED") if t == "DELETED"}
     del_w = {d.split(" ")[0] for t, d in list(reports_w) + rW.tags("DELETED") if t == "DELETED"}
+    if any(p.endswith("/") and exists(p) for p in del_w - del_r):
+        return "watch-new-directory-unreported"  # a directory that came back (moved away and back, re-created)
     if any(p.endswith("/") for p in del_r - del_w):
         return "watch-removed-directory-unreported"
     return "watch-differs:" + "+".join(aspects)
@@ -394,10 +433,9 @@ def run_pair(ctx, project, kw, rounds_fn, seed, where, applied_log=None):
                     ctx.stats.count("pairs-source-trees-diverged (harness artefact, case dropped)")
                     return
                 drained = any(rc is not None and (rc.value & DRAINED) for rc in (rW.returncode, rR.returncode))
-                if external or drained:
-                    # edits made during a phase are picked up by the NEXT rebuild, and a phase that drained
-                    # stops at a schedule-dependent point: compare after the next round
-                    ctx.stats.count("rounds-not-comparable-" + ("edits-during-build" if external else "drained"))
+                if drained:
+                    # a phase that drained stops at a schedule-dependent point: compare after the next round
+                    ctx.stats.count("rounds-not-comparable-drained")
                     pending_compare = True
                     reports_w.extend(rW.tags("UPDATED", "DELETED"))
                     reports_r.extend(rR.tags("UPDATED", "DELETED"))
@@ -406,7 +444,8 @@ def run_pair(ctx, project, kw, rounds_fn, seed, where, applied_log=None):
             ctx.stats.count("rounds-compared")
             aspects, detail = diff_results(rW, rR)
             if aspects:
-                sig = classify(aspects, rW, rR, newdirs_all(history, newdirs), reports_w, reports_r)
+                sig = classify(aspects, rW, rR, newdirs_all(history, newdirs), reports_w, reports_r,
+                               lambda p: os.path.isdir(os.path.join(simR.root, p)))
                 what = (f"after edits {label}: watch rebuild and restart differ in {'+'.join(aspects)} "
                         f"(watch: {rW.status} {rW.returncode!r} ran {rW.commands}; restart: {rR.status} "
                         f"{rR.returncode!r} ran {rR.commands})")
@@ -446,6 +485,7 @@ def sim_pairs(ctx, ncase: int, salt: str, only: int | None = None, applied_log=N
     for i in (range(ncase) if only is None else [only]):
         r = ctx.rng(salt, i)
         family = r.choice(["projgen", "watchy", "watchy"])
+        safe = r.random() < 0.5
         if family == "projgen":
             model = projgen.gen_model(r, fail_prob=r.choice([0.0, 0.0, 0.2]))
             project = projgen.render(model)
@@ -454,7 +494,7 @@ def sim_pairs(ctx, ncase: int, salt: str, only: int | None = None, applied_log=N
             if model.resources:
                 kw["resources"] = model.resources
         else:
-            project, feats = gen_watch_project(r)
+            project, feats = gen_watch_project(r, safe)
             kw = {"njob": r.randint(1, 3)}
         # a phase that drains stops at a schedule-dependent point; failing steps do not drain with -k
         kw["keep_going"] = True
@@ -464,9 +504,13 @@ def sim_pairs(ctx, ncase: int, salt: str, only: int | None = None, applied_log=N
         where = {"case_seed": [ctx.seed, salt, i], "family": family, "features": feats, "options": dict(kw)}
         ctx.stats.programs += 1
 
-        def rounds_fn(n, simR, r=r, nrounds=nrounds, ext_case=ext_case):
+        if safe:
+            feats = feats + ["safe-edits"]
+            where["features"] = feats
+
+        def rounds_fn(n, simR, r=r, nrounds=nrounds, ext_case=ext_case, safe=safe):
             if n == 0:
-                if ext_case and r.random() < 0.5:
+                if ext_case:
                     files, dirs = simR.files(), simR.dirs()
                     _, e = gen_edit(r, files, dirs, simR.root, True)
                     return ("first", [], [(r.randint(3, 14), e)] if e else [])
@@ -477,7 +521,7 @@ def sim_pairs(ctx, ncase: int, salt: str, only: int | None = None, applied_log=N
             # edits are generated against the tree as it evolves: apply to a scratch view
             files, dirs = dict(simR.files()), list(simR.dirs())
             for _ in range(r.randint(1, 3)):
-                lab, e = gen_edit(r, files, dirs, simR.root, False)
+                lab, e = gen_edit(r, files, dirs, simR.root, False, safe)
                 if not e:
                     continue
                 ok = True
@@ -515,12 +559,10 @@ def sim_pairs(ctx, ncase: int, salt: str, only: int | None = None, applied_log=N
                     break
                 labels.append(lab)
                 batch.extend(e)
+            # Edits during a build phase are only made in the first phase, which is the same code path in both
+            # directors (same schedule, same logical moment); in later rounds a restart has extra startup
+            # decisions, so "before the k-th decision" would be two different moments.
             external = []
-            if ext_case and r.random() < 0.5:
-                _, e = gen_edit(r, files, dirs, simR.root, True)
-                if e and all(ed[0] != "touch" or ed[1] in files for ed in e) and all(
-                        ed[0] != "remove" or ed[1] in files for ed in e):
-                    external = [(r.randint(1, 12), e)]
             if not batch and not external:
                 return ("none", [], [])
             return (labels or ["none"], batch, external)
